@@ -13,7 +13,7 @@ NAMES = ["a", "b", "c", "d"]
 PATTERNS = ["^a", "b$", "^[a-c]$", "a|b", ".", "^$", "x", "[0-9]", "^é", "^.{2}$", "a+", "^(ab)*$", "\\d", "^[^a]"]
 BAD_PATTERNS = ["(", "[a", "*a", "a{2,1}", "\\", "(?<n>a)", "a**"]
 STRS = ["", "a", "b", "ab", "abc", "é", "éa", "日本", "x", "1", "a1", "😀"]
-NUMS = ["0", "1", "-1", "2", "3", "0.5", "1.5", "2.5", "-0.5", "4", "10", "0.25", "7", "100", "1e2", "2.0", "-3"]
+NUMS = ["0", "1", "-1", "2", "3", "0.5", "1.5", "2.5", "-0.5", "4", "10", "0.25", "7", "100", "1e2", "2.0", "-3", "-0.0", "0", "0.0"]
 # integral values beyond the int64 range that are exact float64s (type "integer" must still hold)
 HUGE = ["1e19", "-1e19", "18446744073709551616", "9223372036854775808", "-9223372036854775808", "1e15", "2251799813685248.5"]
 MULTS = ["1", "2", "0.5", "0.25", "3", "1.5", "10"]
@@ -159,7 +159,12 @@ def add_keyword(c, o, kw, depth):
         o.set(kw, Num(rng.choice(MULTS)))
     elif kw in ("minLength", "maxLength", "minItems", "maxItems", "minProperties", "maxProperties", "minContains", "maxContains"):
         v = rng.randint(0, 3)
-        o.set(kw, Num(str(v) + (".0" if rng.random() < 0.1 else "")))
+        if getattr(c, "wild_ints", False) and rng.random() < 0.04:
+            # outside the int32 window or not integral, in plain / fraction / exponent spelling: Unmarshal refuses these
+            o.set(kw, Num(rng.choice(["4294967296.0", "2147483648.0", "-2147483649.0", "4294967297.0", "1e10", "2147483648", "1.5", "3e0",
+                                      "2147483647.0", "-1", "20e-1"])))
+        else:
+            o.set(kw, Num(str(v) + (".0" if rng.random() < 0.1 else "")))
         if kw in ("minContains", "maxContains") and o.get("contains") is None and rng.random() < 0.8:
             o.set("contains", gen_schema(c, depth - 1))
     elif kw == "pattern":
